@@ -89,6 +89,8 @@ def arms(block, fn=None):
     if aliases:
         block = _Unalias(aliases).visit(copy.deepcopy(block))
         ast.fix_missing_locations(block)
+    if fn is not None:
+        block = common.unalias_block(fn.node, block)
     out = {}
     loops = [n for n in ast.walk(block) if isinstance(n, ast.For) and src_of(n.target) == 'ext_com']
     if not loops:
